@@ -253,6 +253,13 @@ CORPUS += [
 
 CORPUS += [
     V("C07", "fjsp-release-against-next-release-time", FJ_, '(curr_ops_end <= td["time"][:, None])', '(curr_ops_end <= available_time[:, None])', "C07.d"),
+    V("C07", "fjsp-job-finished-or", FJ_, 'job_finished = op_finished & (td["next_op"] == end_op_per_job)', 'job_finished = op_finished | (td["next_op"] == end_op_per_job)', "C07.d"),
+    V("C07", "fjsp-job-finished-any-op", FJ_, 'job_finished = op_finished & (td["next_op"] == end_op_per_job)', 'job_finished = op_finished', "C07.d"),
+    V("C07", "fjsp-job-finished-not-last", FJ_, 'job_finished = op_finished & (td["next_op"] == end_op_per_job)', 'job_finished = op_finished & (td["next_op"] != end_op_per_job)', "C07.d"),
+    V("C07", "fjsp-job-done-forgets", FJ_, 'td["job_done"] = td["job_done"] + job_finished', 'td["job_done"] = job_finished', "C07.d"),
+    V("C07", "fjsp-job-done-and", FJ_, 'td["job_done"] = td["job_done"] + job_finished', 'td["job_done"] = td["job_done"] & job_finished', "C07.d"),
+    V("C07", "eq-fjsp-job-done-or", FJ_, 'td["job_done"] = td["job_done"] + job_finished', 'td["job_done"] = job_finished | td["job_done"]', None),
+    V("C07", "eq-fjsp-job-finished-swapped", FJ_, 'job_finished = op_finished & (td["next_op"] == end_op_per_job)', 'job_finished = (end_op_per_job == td["next_op"]) & op_finished', None),
     V("C07", "fjsp-makespan-sentinel-mask", FJ_, '-td["finish_times"].masked_fill(td["pad_mask"], -torch.inf).max(1).values', '-td["finish_times"].masked_fill(td["finish_times"] >= 9999, -torch.inf).max(1).values', "C07.f"),
 ]
 
